@@ -1,36 +1,52 @@
 """C11 — Built-in contrast codings are valid and standard for every level count.
 
-Correspondence stream `c11` (two request kinds):
+Correspondence stream `c11` (five request kinds):
 
 * op "matrices": for a level list and one option combination, the real
   `ContrastsState.get_coding_matrix / get_coefficient_matrix` (dense and sparse, reduced and full),
-  `get_coding_column_names`, `get_drop_field`, `get_spans_intercept`, `get_factor_format`
-  against `Model.Contrasts.getCodingMatrix …` and the closed-form inverse `Spec.Contrasts.coef`.
-* op "encode": `encode_contrasts(...)`, the `C(...)` encoder closure and `model_matrix("… C(x, …)")`
-  on a data vector with absent levels / nulls / values outside the levels against
-  `Model.Contrasts.encodeContrasts`.
-* op "formula": ONE `model_matrix` call whose formula needs the same `C(x, contr.…)` factor several times (main effect,
+  `get_coding_column_names`, `get_coefficient_row_names`, the row / column labels of the two DataFrames, `get_drop_field`,
+  `get_spans_intercept`, `get_factor_format` against `Model.Contrasts.getCodingMatrix …`, `Model.ContrastsExt.coefRowNames /
+  codingFrameLabels / coefFrameLabels` and the closed-form inverse `Spec.Contrasts.coef`.
+* op "encode": `encode_contrasts(...)`, the `C(...)` encoder closure, `model_matrix("… C(x, …)")` (pandas or narwhals
+  materializer) and reuse of a fitted spec, on a data vector with absent levels / nulls / values outside the levels, the column
+  of object dtype or ALREADY categorical (declared categories in another order than / a subset of / a superset of the explicit
+  level list), the `contrasts=` argument in every form (instance of a built-in coding, the class itself, nothing, a custom coding
+  as `contr.custom(...)` or as a bare dict / list of rows / ndarray) against `Model.ContrastsExt.xEncodeContrasts` (which for an
+  instance of a built-in coding IS `Model.Contrasts.encodeContrasts`).
+* op "custom": `CustomContrasts(...)` construction (dict, rows, ndarray, flat, empty; names absent / aligned / misaligned) and
+  all of its matrices, names and metadata against `Model.ContrastsExt.mkCustom / customCodingMatrix / customCoefMatrix …`; the
+  coefficient matrix is the model's exact rational inverse (certified inside the model) compared with numpy / scipy.
+* op "apply": `contrasts.apply(dummies, levels, reduced_rank=…, output=…)` called directly on a DataFrame / ndarray / sparse
+  matrix / other object, `output` omitted (inferred), spelled out, 'narwhals', or unknown, against `Model.ContrastsExt.applyDirect`.
+* op "formula": ONE `model_matrix` call whose formula needs the same `C(x, …)` factor several times (main effect,
   interactions with numerical / categorical partners, several parts of `lhs ~ … | …`, with / without intercept, a second
   contrast factor on the same column), so that it is encoded in full and in reduced rank in either order. The sequence of
   uses (factor, rank, new part) is read off `model_spec.structure`; every use is recovered from the matrix by dividing by
   the exactly known partner columns and compared with `Model.ContrastsCache.materialize` (the model of
-  `FormulaMaterializer._encode_evaled_factor`: encoded cache + per-part encoder state) on that history.
+  `FormulaMaterializer._encode_evaled_factor`: encoded cache + per-part encoder state) on that history; the second argument of
+  `C()` in every form (built-in instance, class, absent, custom coding).
 
 Numbers: the model answers in exact rationals ("p/q"). Implementation floats are compared after
-`Fraction(x).limit_denominator(10**6)` plus an absolute check (1e-12 for codings, 1e-9 for inverses).
-Polynomial columns are irrational: the model sends the unnormalised monic column `P` and `norms2`;
-the implementation's entry `v` must satisfy `|v - sign(P)·sqrt(P²/norms2)| <= tol(n)` (sign included),
-`tol(n) = 1e-11·2^(max(0,n-8)/1.5)` (1e-11·2^(n-6) for arbitrary scores, n <= 12) because the float three-term recurrence loses digits as n grows
-(IEEE rounding is not modelled).
+`Fraction(x).limit_denominator(10**6)` plus an absolute check (1e-12 for codings, 1e-9 for inverses; 1e-10·max(1,|K|)² for the
+inverse of a custom coding). Polynomial columns are irrational: the model sends the unnormalised monic column `P` and `norms2`;
+the implementation's entry `v` in column j must satisfy `|v - sign(P)·sqrt(P²/norms2)| <= tol_j` (sign included),
+`tol_j = 16·eps·cond(Vandermonde of the scores scaled to [-1,1], degrees 0..j) + 1e-13` (see `poly_tols`; capped by
+`1e-11·2^(max(0,n-8)/1.5)` for equally spaced scores) because constructing orthogonal polynomials is ill-conditioned in the degree
+and the spread of the scores (IEEE rounding is not modelled).
 
 Oracle (implementation only, numpy): shapes, rank of [1|C], coefficient @ [1|C] ≈ I, column sums,
-dense == sparse, equality with independent R-style constructions, encode == indicator @ coding with
-the reference level / explicit level list honoured; for op "formula": every block of columns a contrast factor contributes to
-a term (n-1 columns: reduced coding, n columns: full coding) == indicator @ that coding, times the partner columns.
+dense == sparse, equality with independent R-style constructions, coefficient row names and DataFrame labels against an
+independent construction, encode == indicator @ coding with the reference level / explicit level list honoured (whatever the
+dtype of the column); custom codings: coding == the given matrix, names as given or 1..k, misaligned names rejected, coefficient
+@ [1|C] ≈ I when exactly non-singular, never spans the intercept; apply: result == dummies @ coding in the container of the
+inferred output type, unknown output names rejected; for op "formula": every block of columns a contrast factor contributes to
+a term (n-1 columns: reduced coding, n columns: full coding, k columns: custom coding) == indicator @ that coding, times the partner columns.
 """
 from __future__ import annotations
 
+import json
 import math
+import random
 import warnings
 from fractions import Fraction
 
@@ -56,22 +72,71 @@ REQUIRED_THEOREMS = [
     "dense_sparse_agree",
     "cache_transparent",
     "materialized_is_product",
+    "materialized_custom_is_product",
+    "class_defaults",
+    "live_tables_match",
+    "encode_argument_forms",
+    "custom_init",
+    "custom_names",
+    "custom_encode_is_product",
+    "apply_output_inferred",
+    "apply_direct_is_product",
+    "custom_coefficient_is_inverse",
+    "coef_input_entries",
+    "names_align",
+    "names_are_levels",
+    "frame_labels_align",
+    "encoded_rows",
+    "encode_levels_distinct",
+    "treatment_rows",
+    "c_encoder_drops_rows",
+    "poly_normalised_orthonormal",
+    "poly_normalised_coefficient_is_inverse",
 ]
 TRUSTED = [
-    "numpy.linalg.inv / scipy.sparse.linalg.inv are not modelled: the implementation's coefficient matrix is "
-    "compared numerically (1e-9) with the closed form that Props.C11.coefficient_is_inverse proves to be the inverse of [1 | coding]",
+    "numpy.linalg.inv / scipy.sparse.linalg.inv: for the built-in codings the implementation's coefficient matrix is "
+    "compared numerically (1e-9) with the closed form that Props.C11.coefficient_is_inverse proves to be the inverse of [1 | coding] "
+    "(over the reals for the polynomial coding: poly_normalised_coefficient_is_inverse); for a custom coding with the model's exact "
+    "rational inverse, which the model certifies by multiplying back (custom_coefficient_is_inverse). Which exception class the two "
+    "libraries raise (LinAlgError / ValueError for non-square, LinAlgError / RuntimeError for singular, scipy's NaN answer for a "
+    "singular 1x1 system) is copied from observation; singular cases are generated only in forms both libraries flag exactly "
+    "(a zero column, a constant column next to the ones column)",
+    "the model's Gauss-Jordan elimination is not proved complete: an answer it cannot certify would surface as 'model-uncertified' "
+    "(a correspondence disagreement), never as a wrong inverse",
     "pandas.Categorical / get_dummies / categorical_encode_series_to_sparse_csc_matrix are modelled by "
     "Model.Contrasts.indicator (one-hot rows; nulls and values outside the levels give zero rows; inferred categories = "
-    "sorted distinct values, numbers before strings) and validated by the correspondence only",
+    "sorted distinct values, numbers before strings; a categorical column without an explicit level list: its declared categories "
+    "in their declared order, handed to the model as the level list) and validated by the correspondence only",
+    "numpy.array(...) shape rules for what is given to CustomContrasts ([] and flat sequences are 1-d, rows of one length 2-d, "
+    "anything else the inhomogeneous-shape ValueError; csc_matrix promotes 1-d to 1 x m) and pandas.DataFrame(values, columns=, index=) "
+    "shape checking are modelled as observed",
     "op 'formula': which rank each use of the factor needs (patsy's rank rules, properties C02/C03) and the row-wise product "
     "of a term's factors are not modelled here: the history is read off the implementation's model_spec.structure and the "
     "partner columns (z, w = +-2^k or 0; g = 0/1 indicators of its sorted levels, first dropped when reduced) are divided out",
-    "polynomial contrasts: sqrt and the float three-term recurrence are not modelled; columns are compared as "
-    "sign(P)*sqrt(P^2/norms2) with tolerance 1e-11*2^(max(0,n-8)/1.5) (arbitrary scores only for n <= 12, affine scores beyond) (1e-7-level float error at n=40 is rounding, not a finding)",
+    "polynomial contrasts: the float three-term recurrence is not modelled; columns are compared as "
+    "sign(P)*sqrt(P^2/norms2) with a per-column tolerance 16*eps*cond(Vandermonde of the scaled scores up to that degree) + 1e-13, capped for equally "
+    "spaced scores by 1e-11*2^(max(0,n-8)/1.5) (arbitrary scores only for n <= 12, affine scores beyond) (1e-8-level float error in the last column for 12 "
+    "spread-out scores, 1e-6-level at n=40, is conditioning, not a finding); "
+    "the sqrt normalisation itself is a theorem over the reals (poly_normalised_orthonormal)",
+    "Gen/ContrastsTable.lean (contr registry, factor formats, dataclass defaults, NAME_ALIASES) is regenerated from the live package by "
+    "harness/translate.py on every run; live_tables_match / class_defaults are re-decided against it",
 ]
 ASSUMPTIONS = [
-    "levels are pairwise distinct (pandas rejects duplicate categories); polynomial scores are pairwise distinct",
+    "polynomial coding: the implementation's unit-norm columns are compared with the exact values within an absolute tolerance that is "
+    "relative to the column's scale and grows with the conditioning of the problem: column j (degree j) within 16*eps*kappa_j + 1e-13, "
+    "kappa_j = cond_2 of the n x (j+1) Vandermonde matrix of the scores mapped onto [-1, 1] (measured error <= 2.1*eps*kappa_j over 3000 "
+    "random score vectors, n <= 12); for equally spaced scores additionally capped by the measured envelope 1e-11*2^(max(0,n-8)/1.5); the "
+    "inverse (all columns mix) within 16x and the numpy invariants (orthonormality, zero sums, K @ [1|C] = I) within 64x the largest column "
+    "tolerance. Treatment / sum / Helmert / difference codings are exact rationals and are compared exactly (1e-12 and rounding to the rational).",
+    "levels are pairwise distinct (pandas rejects duplicate categories; encode_levels_distinct); polynomial scores are pairwise distinct",
     "level labels are str or int, with pairwise distinct str() forms (9 and '9' as two levels of one factor collide in model-matrix column names; not generated)",
+    "Contrasts.apply called directly: `dummies` has one column per level; an explicit `output` is the one that goes with the type of `dummies`, 'narwhals' "
+    "(DataFrame / ndarray only) or an unknown name (other mixtures, e.g. output='sparse' with a DataFrame, are not generated)",
+    "custom codings have small dyadic entries; square [1 | C] / C are drawn exactly non-singular, or singular through a zero / constant column",
+    "a custom coding with a single level in reduced rank is encoded to NO columns (the empty short-circuit of Contrasts.apply ignores that a custom "
+    "coding has k columns whatever the rank): modelled as written, not judged by the oracle",
+    "CustomContrasts.get_coefficient_row_names(reduced_rank=False) returns n-1 names for the n x n matrix, so the dense full-rank coefficient "
+    "DataFrame of a custom coding always raises ValueError: modelled as written (outside the property text, reported as an observation)",
 ]
 RULE = (
     "n = 1..12 (thorough 1..40) x {treatment(unset/base), SAS(unset/base), sum, helmert(reverse x scale), diff(backward), "
@@ -84,7 +149,15 @@ RULE = (
     "combinations x {one of 8 canonical shapes in which the factor is needed full-then-reduced / reduced-then-full / in two parts, "
     "one random shape}: terms drawn from A, A:z, A:w, A:g, A:z:w, A:g:z, z, w, g (+ B, B:z, B:g for a second contrast factor on the "
     "same column), intercept 0/1 per part, 1-2 parts, optional lhs, levels explicit / inferred, data with nulls / absent / outside "
-    "values, output pandas/numpy/sparse, at least two uses of A per formula. non-trivial = n >= 3; distinct by canonical JSON"
+    "values, output pandas/numpy/sparse, at least two uses of A per formula (a third of the explicit-level cases on a categorical column "
+    "declaring another order); plus a categorical-dtype stream: n in {2,3,4,6} (thorough to 16) x 13 options x {explicit list = permutation "
+    "of the declared categories (x2), strict subset, strict superset, same, none (declared order)} via encode_contrasts(levels=) / state / "
+    "C() / model_matrix (pandas and narwhals materializer) / reuse of a fitted spec, each with its object-dtype twin; plus a custom stream: "
+    "n = 1..6 (thorough 1..10) x {[1|C] square, C square, other widths, misaligned names, wrong row count, singular by a zero / constant "
+    "column} x {dict, rows, ndarray} and malformed constructions (ragged, [], {}, flat, no columns); custom / class / absent arguments "
+    "through encode_contrasts / C() / model_matrix (bare and as contr.custom(...)); an apply stream: n in {1,2,3,5,8} (thorough to 25) x "
+    "14 codings x dummies {DataFrame, ndarray, sparse matrix, list, sparse array} x output {omitted, matching, 'narwhals', unknown}, "
+    "one-hot or arbitrary integer dummies; and a formula stream with custom / class / absent arguments. non-trivial = n >= 3; distinct by canonical JSON"
 )
 
 STR_POOL = ["a", "b", "c", "d", "e", "f", "g", "h", "B", "Z", "aa", "ab", "10", "9", "x y", "é", "T.a", "[q]"]
@@ -259,10 +332,375 @@ def _formula_cases(rng, tier):
                 g = [rng.choice(G_POOL) for _ in range(nrows)]
                 if len(set(g)) < 2:
                     g[0], g[1] = "u", "v"
+                case = dict(op="formula", contrast=opt, contrast2=opt2, levels=None if how == "infer" else levels,
+                            data=data, z=[rng.choice(NUM_POOL) for _ in range(nrows)],
+                            w=[rng.choice(NUM_POOL + ["0/1"]) for _ in range(nrows)], g=g, parts=parts,
+                            lhs=rng.random() < 0.2, output=rng.choice(["pandas", "numpy", "sparse"]), ltype=ltype)
+                # every third case with an explicit level list: the column is a pandas categorical that declares the same
+                # labels (and whatever else occurs in the data) in ANOTHER order; decided by a private PRNG so that the
+                # older cases are unchanged for a given seed
+                r2 = random.Random(json.dumps(case, sort_keys=True))
+                if how != "infer" and r2.random() < 0.34:
+                    cat = list(levels) + [d for d in _infer(data) if d not in levels]
+                    r2.shuffle(cat)
+                    case["cat"] = cat
+                    case["catrel"] = "perm" if len(cat) == len(levels) else "subset"
+                yield case
+
+
+# ---- extended surface: custom contrasts, the `contrasts=` argument, Contrasts.apply called directly
+
+CLASS_NAMES = ["TreatmentContrasts", "SASContrasts", "SumContrasts", "HelmertContrasts", "DiffContrasts", "PolyContrasts",
+               "CustomContrasts"]
+
+
+def _fdet(rows):
+    """exact determinant (Fractions) — used by the GENERATOR (to draw matrices that are safely non-singular) and by the
+    oracle (to know whether the property speaks about an inverse); never sent to the model"""
+    a = [[Fraction(v) for v in r] for r in rows]
+    n = len(a)
+    det = Fraction(1)
+    for j in range(n):
+        p = next((i for i in range(j, n) if a[i][j] != 0), None)
+        if p is None:
+            return Fraction(0)
+        if p != j:
+            a[j], a[p] = a[p], a[j]
+            det = -det
+        det *= a[j][j]
+        for i in range(j + 1, n):
+            f = a[i][j] / a[j][j]
+            if f:
+                a[i] = [x - f * y for x, y in zip(a[i], a[j])]
+    return det
+
+
+def _entry(rng):
+    v = rng.randint(-6, 6)
+    return f"{v}/2" if rng.random() < 0.3 else f"{rng.randint(-3, 3)}/1"
+
+
+def _custom_matrix(rng, r, k, square_of=None):
+    """r x k matrix of small dyadic entries; whenever [1|C] or C is square the matrix is re-drawn until that square matrix
+    is exactly non-singular (`square_of` only documents which one the caller is after)"""
+    for _ in range(200):
+        m = [[_entry(rng) for _ in range(k)] for _ in range(r)]
+        # whichever of [1 | C] / C happens to be square is inverted by some call (the sparse paths do not look at the
+        # number of levels): never leave it singular by accident — scipy / LAPACK only flag EXACT zero pivots reliably
+        if r == k + 1 and _fdet([["1/1"] + row for row in m]) == 0:
+            continue
+        if r == k and r > 0 and _fdet(m) == 0:
+            continue
+        return m
+    return m
+
+
+def _custom_names(rng, k, how):
+    if how == "none":
+        return None
+    pool = rng.sample(STR_POOL, min(k + 1, len(STR_POOL))) + [f"n{i}" for i in range(k + 1)]
+    names = [dict(s=x) if rng.random() < 0.8 else dict(i=rng.randint(20, 60) + 100 * j) for j, x in enumerate(pool)]
+    if how == "aligned":
+        return names[:k]
+    return names[: k + 1] if (rng.random() < 0.5 or k == 0) else names[: k - 1]   # "mismatch"
+
+
+def _custom_spec(rng, m, r, k, form=None, names="none", bare=False):
+    """JSON description of what is handed to CustomContrasts / encode_contrasts / C(): rows `m` (r x k)"""
+    form = form or rng.choice(["dict", "rows", "ndarray"])
+    o = dict(k="custom", form=form, bare=bare, names=_custom_names(rng, k, names))
+    if form == "dict":
+        keys = _custom_names(rng, k, "aligned")
+        o["items"] = [[keys[j], [m[i][j] for i in range(r)]] for j in range(k)]
+    else:
+        o["rows"] = m
+    return o
+
+
+def _custom_cases(rng, tier):
+    """`contr.custom(...)` / `CustomContrasts`: construction (dict, rows, ndarray, flat; names aligned / misaligned /
+    absent), coding and coefficient matrices (dense, sparse, reduced, full), names, metadata — for matrices that fit the
+    levels and for ones that do not"""
+    sizes = {"quick": [1, 2, 3, 4, 5, 6], "thorough": list(range(1, 11)), "search": [2, 3, 4]}[tier]
+    for n in sizes:
+        for ltype in ("str", "int", "mixed"):
+            levels = _labels(rng, n, ltype)
+            variants = [("aug", n, n - 1, "none"), ("aug", n, n - 1, "aligned"), ("self", n, n, "none"),
+                        ("self", n, n, "aligned"), (None, n, rng.choice([0, 1, n + 1, max(0, n - 2)]), "aligned"),
+                        (None, n, n - 1, "mismatch"), (None, rng.choice([n + 1, max(1, n - 1), n + 2]), n - 1, "none")]
+            for sq, r, k, names in variants:
+                if k < 0:
+                    continue
+                m = _custom_matrix(rng, r, k, sq)
+                yield dict(op="custom", contrast=_custom_spec(rng, m, r, k, names=names), levels=levels, ltype=ltype)
+            # exactly singular [1|C] / C: a zero column, or a column equal to a constant (both are flagged exactly by LAPACK and SuperLU)
+            if n >= 2:
+                for sq, k in (("aug", n - 1), ("self", n)):
+                    m = _custom_matrix(rng, n, k, sq)
+                    j = rng.randrange(k)
+                    cval = rng.choice(["0/1", "0/1", "1/1", "2/1", "-1/1", "1/2"]) if sq == "aug" else "0/1"
+                    for row in m:
+                        row[j] = cval
+                    yield dict(op="custom", contrast=_custom_spec(rng, m, n, k), levels=levels, ltype=ltype, singular=True)
+        # malformed constructions
+        levels = _labels(rng, n, "str")
+        m = _custom_matrix(rng, n, max(1, n - 1))
+        ragged = [list(r) for r in m] + [[_entry(rng)] * (max(1, n - 1) + 1)]
+        yield dict(op="custom", contrast=dict(k="custom", form="rows", rows=ragged, names=None, bare=False), levels=levels, ltype="str", malformed="ragged")
+        yield dict(op="custom", contrast=dict(k="custom", form="dict", names=None, bare=False,
+                                                items=[[dict(s="p"), [_entry(rng)] * n], [dict(s="q"), [_entry(rng)] * (n + 1)]]),
+                   levels=levels, ltype="str", malformed="ragged")
+        yield dict(op="custom", contrast=dict(k="custom", form="rows", rows=[], names=rng.choice([None, None, [], [dict(s="a")]]), bare=False),
+                   levels=levels, ltype="str", malformed="empty")
+        yield dict(op="custom", contrast=dict(k="custom", form="dict", items=[], names=rng.choice([None, [dict(s="a")]]), bare=False),
+                   levels=levels, ltype="str", malformed="empty")
+        yield dict(op="custom", contrast=dict(k="custom", form="flat", vals=[_entry(rng) for _ in range(n)],
+                                                names=rng.choice([None, None, [dict(s="a")]]), bare=False),
+                   levels=levels, ltype="str", malformed="flat")
+        yield dict(op="custom", contrast=dict(k="custom", form="rows", rows=[[] for _ in range(n)], names=rng.choice([None, []]), bare=False),
+                   levels=levels, ltype="str", malformed="nocolumns")
+
+
+def _custom_encode_cases(rng, tier):
+    """encode_contrasts / C() / model_matrix with a custom coding handed over as an instance (`contr.custom(...)`) or
+    bare (dict, list of rows, ndarray: the `CustomContrasts(contrasts)` branch of encode_contrasts), and with a class
+    (`contr.sum`, not `contr.sum()`) or nothing (`contrasts=None`)"""
+    sizes = {"quick": [1, 2, 3, 4, 6], "thorough": [1, 2, 3, 4, 5, 6, 8, 12, 20], "search": [2, 3, 4]}[tier]
+    reps = {"quick": 6, "thorough": 8, "search": 4}[tier]
+    for n in sizes:
+        for rep in range(reps):
+            ltype = rng.choice(["str", "int", "mixed"])
+            levels = _labels(rng, n, ltype)
+            data = _data(rng, levels, rng.randint(3, 9))
+            how = rng.choice(["arg", "arg", "state", "infer"])
+            via = rng.choice(["encode", "encode", "C", "mm"])
+            nlev = n
+            if how == "infer":
+                present = _infer(data)
+                if not present:
+                    continue
+                nlev = len(present)
+            r = nlev if rng.random() < 0.85 else rng.choice([nlev + 1, max(1, nlev - 1)])
+            k = rng.choice([nlev - 1, nlev - 1, nlev, 1, 2, 0])
+            if k < 0:
+                k = 0
+            m = _custom_matrix(rng, r, k)
+            bare = rng.random() < 0.6
+            spec = _custom_spec(rng, m, r, k, names="none" if bare else rng.choice(["none", "aligned"]), bare=bare)
+            c = dict(op="encode", contrast=spec, data=data, reduced=rng.random() < 0.5,
+                     output=rng.choice(["pandas", "numpy", "sparse"]), via=via, levels_via=how, ltype=ltype,
+                     levels=None if how == "infer" else levels)
+            if via == "mm" and how == "state":
+                c["levels_via"] = "arg"
+            yield c
+        # a class instead of an instance; nothing at all
+        for name in CLASS_NAMES + [None]:
+            ltype = rng.choice(["str", "int", "mixed"])
+            levels = _labels(rng, n, ltype)
+            data = _data(rng, levels, rng.randint(3, 8))
+            how = rng.choice(["arg", "infer"])
+            if how == "infer" and not _infer(data):
+                how = "arg"
+            yield dict(op="encode", contrast=dict(k="unset") if name is None else dict(k="cls", name=name), data=data,
+                       reduced=rng.random() < 0.6, output=rng.choice(["pandas", "numpy", "sparse"]),
+                       via=rng.choice(["encode", "C", "mm"]), levels_via=how, ltype=ltype,
+                       levels=None if how == "infer" else levels)
+    # malformed bare arguments
+    for _ in range({"quick": 12, "thorough": 40, "search": 4}[tier]):
+        n = rng.randint(1, 4)
+        levels = _labels(rng, n, "str")
+        kind = rng.choice(["empty-list", "empty-dict", "flat", "ragged", "dup+custom", "badoutput+custom"])
+        out = rng.choice(["pandas", "numpy", "sparse"])
+        lv = levels
+        if kind == "empty-list":
+            spec = dict(k="custom", form="rows", rows=[], names=None, bare=True)
+        elif kind == "empty-dict":
+            spec = dict(k="custom", form="dict", items=[], names=None, bare=True)
+        elif kind == "flat":
+            spec = dict(k="custom", form="flat", vals=[_entry(rng) for _ in range(n)], names=None, bare=True)
+        elif kind == "ragged":
+            spec = dict(k="custom", form="rows", rows=[[_entry(rng)], [_entry(rng), _entry(rng)]], names=None, bare=True)
+        else:
+            spec = _custom_spec(rng, _custom_matrix(rng, n, 1), n, 1, bare=True)
+            if kind == "dup+custom":
+                lv = levels + [levels[0]]
+            else:
+                out = "invalid"
+        yield dict(op="encode", contrast=spec, data=_data(rng, levels, 5), reduced=rng.random() < 0.5, output=out,
+                   via="encode", levels_via="arg", levels=lv, ltype="str", malformed=kind)
+
+
+DTYPES = ["frame", "ndarray", "spmatrix"]
+OUT_OF = {"frame": "pandas", "ndarray": "numpy", "spmatrix": "sparse"}
+
+
+def _apply_cases(rng, tier):
+    """`contrasts.apply(dummies, levels, reduced_rank=…, output=…)` called directly: `dummies` a DataFrame, an ndarray or a
+    scipy sparse matrix with one column per level (one-hot rows with all-zero rows, sometimes arbitrary small integers);
+    `output` omitted (inferred from the type of `dummies`), spelled out, or not a known output; and `dummies` of a type
+    from which no output can be inferred (a list, a scipy sparse *array*)"""
+    sizes = {"quick": [1, 2, 3, 5, 8], "thorough": [1, 2, 3, 4, 5, 6, 9, 14, 25], "search": [2, 3, 4]}[tier]
+    for n in sizes:
+        for ltype in ("str", "int", "mixed"):
+            levels = _labels(rng, n, ltype)
+            opts = _options(rng, n, levels)
+            k = rng.choice([max(0, n - 1), n, 2])
+            opts.append(_custom_spec(rng, _custom_matrix(rng, n, k), n, k, names=rng.choice(["none", "aligned"])))
+            for opt in opts:
+                nrows = rng.randint(0, 2) if rng.random() < 0.08 else rng.randint(3, 7)
+                if rng.random() < 0.7:
+                    rows = []
+                    for _ in range(nrows):
+                        j = rng.randrange(n + 1)
+                        rows.append(["1/1" if i == j else "0/1" for i in range(n)])
+                else:
+                    rows = [[f"{rng.randint(-3, 3)}/1" for _ in range(n)] for _ in range(nrows)]
+                dt = rng.choice(DTYPES)
+                r = rng.random()
+                output = None if r < 0.6 else OUT_OF[dt] if r < 0.86 else "narwhals" if r < 0.92 else "invalid"
+                if output == "narwhals" and dt == "spmatrix":
+                    dt = "frame"   # 'narwhals' passes the validation and is then treated as a dense output
+                if r >= 0.97:
+                    dt, output = rng.choice(["list", "sparray"]), None
+                yield dict(op="apply", contrast=opt, levels=levels, dummies=rows, dtype=dt, output=output,
+                           reduced=rng.random() < 0.6, ltype=ltype)
+
+
+def _categorical_cases(rng, tier):
+    """The data column ALREADY has a pandas categorical dtype, and the level list is given explicitly (argument, encoder
+    state, or the categories a fitted spec recorded): a permutation of exactly the dtype's categories in another order,
+    a strict subset, a strict superset, or the same list; every built-in coding, dense and sparse, reduced and full,
+    through encode_contrasts / C() / model_matrix / reuse of a fitted spec. The explicit order decides the reference
+    level, the column labels, the recorded categories and the encoded columns. Each case comes with its twin on an
+    object column (same values, same explicit list): the two must encode identically. Plus categorical columns without
+    an explicit list (the declared order is the level list)."""
+    sizes = {"quick": [2, 3, 4, 6], "thorough": [2, 3, 4, 5, 7, 10, 16], "search": [2, 3, 4]}[tier]
+    for n in sizes:
+        for opt_i in range(13):
+            for rel in ("perm", "perm", "subset", "superset", "same", "declared"):
+                ltype = rng.choice(["str", "int", "mixed"])
+                levels = _labels(rng, n, ltype)
+                if rel in ("perm", "same", "declared"):
+                    cat = list(levels)
+                elif rel == "subset":       # the explicit list is a strict subset of the declared categories
+                    extra = [l for l in _labels(rng, n + 2, ltype) if l not in levels][: rng.randint(1, 2)] or [dict(s="EXTRA")]
+                    cat = levels + extra
+                else:                       # strict superset
+                    cat = [l for l in levels if rng.random() < 0.6] or levels[:1]
+                    if len(cat) == len(levels):
+                        cat = cat[:-1]
+                if rel != "same" and len(cat) >= 2:
+                    for _ in range(10):
+                        rng.shuffle(cat)
+                        if [l for l in cat if l in levels] != [l for l in levels if l in cat]:
+                            break   # the declared order really differs from the explicit one
+                opt = _options(rng, n, levels)[opt_i]
+                if rel == "declared":
+                    opt = _options(rng, n, cat)[opt_i]
+                elif opt.get("base") is not None and n >= 2:
+                    # a reference level whose position differs between the two orders, when there is one
+                    moved = [l for l in levels if l in cat and cat.index(l) != levels.index(l)]
+                    if moved:
+                        opt = dict(opt, base=rng.choice(moved))
+                nrows = rng.randint(4, 9)
+                data = [None if rng.random() < 0.12 else rng.choice(cat) for _ in range(nrows)]
+                data[: len(cat)] = cat[: nrows]          # every declared category occurs (when there is room)
+                rng.shuffle(data)
+                via, how = rng.choice([("encode", "arg"), ("encode", "state"), ("C", "arg"), ("C", "state"), ("mm", "arg"),
+                                       ("reuse", "arg"), ("reuse", "fitted")])
+                base = dict(op="encode", contrast=opt, data=data, reduced=rng.random() < 0.6,
+                            output=rng.choice(["pandas", "numpy", "sparse"]), via=via, levels_via=how, ltype=ltype, catrel=rel)
+                if via in ("mm", "reuse") and rng.random() < 0.4:
+                    base["nw"] = True    # through the narwhals materializer instead of the pandas one
+                if rel == "declared":
+                    if via == "reuse":
+                        via, how = "mm", "arg"
+                    yield dict(base, via=via, levels_via="infer", levels=None, cat=cat)
+                    continue
+                if via == "reuse":
+                    fit = list(levels) + [rng.choice(levels) for _ in range(rng.randint(0, 3))]
+                    rng.shuffle(fit)
+                    base["fit"] = fit
+                    if how == "fitted":
+                        # no `levels=`: the fit records the sorted distinct values; the new column declares another order
+                        base["levels"] = _infer(fit)
+                        if opt.get("base") is not None or opt.get("scores") is not None:
+                            base["contrast"] = _options(rng, n, base["levels"])[opt_i]
+                    else:
+                        base["levels"] = levels
+                else:
+                    base["levels"] = levels
+                yield dict(base, cat=cat)
+                yield dict(base, cat=None)   # the twin on an object column
+
+
+
+def _ext_option(rng, n, which):
+    """the second argument of C(x, …) in a form other than an instance of a built-in coding"""
+    if which == "unset":
+        return dict(k="unset")
+    if which == "cls":
+        return dict(k="cls", name=rng.choice(CLASS_NAMES[:6]))
+    k = rng.choice([max(0, n - 1), n, 2, 1])
+    bare = rng.random() < 0.5
+    return _custom_spec(rng, _custom_matrix(rng, n, k), n, k, names="none" if bare else rng.choice(["none", "aligned"]), bare=bare)
+
+
+def _formula_ext_cases(rng, tier):
+    """like `_formula_cases` (ONE model_matrix call that needs the same `C(x, …)` factor several times, in both ranks, in
+    one or several parts), with the second argument of C() a custom coding (`contr.custom(...)`, a bare dict / list of
+    rows / ndarray), a class (`contr.sum`, not `contr.sum()`), or absent"""
+    sizes = {"quick": [1, 2, 3, 4, 6], "thorough": [1, 2, 3, 4, 5, 7, 10, 16], "search": [2, 3, 4]}[tier]
+    k = rng.randrange(len(CANONICAL))
+    for n in sizes:
+        for which in ("custom", "custom", "custom", "cls", "cls", "unset"):
+            for rep in range(2):
+                ltype = rng.choice(["str", "int", "mixed"])
+                levels = _labels(rng, n, ltype)
+                nrows = rng.randint(4, 9)
+                data = _data(rng, levels, nrows)
+                if all(d is None or d not in levels for d in data):
+                    data[rng.randrange(nrows)] = levels[0]
+                how = rng.choice(["arg", "arg", "infer"])
+                lv = _infer(data) if how == "infer" else levels
+                opt = _ext_option(rng, len(lv), which)
+                with_b = rep == 1 and rng.random() < 0.6
+                opt2 = (rng.choice(_options(rng, len(lv), lv)) if rng.random() < 0.5 else _ext_option(rng, len(lv), rng.choice(["custom", "cls"]))) if with_b else None
+                if rep == 0:
+                    parts = CANONICAL[k % len(CANONICAL)]
+                    k += 1
+                else:
+                    parts = _formula_shape(rng, with_b)
+                g = [rng.choice(G_POOL) for _ in range(nrows)]
+                if len(set(g)) < 2:
+                    g[0], g[1] = "u", "v"
                 yield dict(op="formula", contrast=opt, contrast2=opt2, levels=None if how == "infer" else levels,
                            data=data, z=[rng.choice(NUM_POOL) for _ in range(nrows)],
                            w=[rng.choice(NUM_POOL + ["0/1"]) for _ in range(nrows)], g=g, parts=parts,
                            lhs=rng.random() < 0.2, output=rng.choice(["pandas", "numpy", "sparse"]), ltype=ltype)
+
+
+def _drop_cases(rng, tier):
+    """the encoder closure of `C(...)` with rows to drop: `drop_rows` positions (possibly repeated, any order) are removed
+    by position before encoding; with an explicit / recorded level list the result is the encoding of all rows with those
+    rows taken out"""
+    sizes = {"quick": [1, 2, 3, 5], "thorough": [1, 2, 3, 4, 6, 9, 15], "search": [2, 3]}[tier]
+    for n in sizes:
+        for opt_i in range(16):
+            ltype = rng.choice(["str", "int", "mixed"])
+            levels = _labels(rng, n, ltype)
+            opt = _options(rng, n, levels)[opt_i] if opt_i < 13 else _ext_option(rng, n, ["custom", "cls", "unset"][opt_i - 13])
+            nrows = rng.randint(3, 9)
+            data = _data(rng, levels, nrows)
+            drop = [rng.randrange(nrows) for _ in range(rng.randint(0, nrows))]
+            how = rng.choice(["arg", "state"])
+            yield dict(op="encode", contrast=opt, data=data, reduced=rng.random() < 0.6,
+                       output=rng.choice(["pandas", "numpy", "sparse"]), via="C", levels_via=how, levels=levels, ltype=ltype,
+                       drop=drop)
+            if rng.random() < 0.3:   # the twin without dropping, on the remaining rows: must encode identically
+                kept = [d for i, d in enumerate(data) if i not in drop]
+                yield dict(op="encode", contrast=opt, data=kept, reduced=rng.random() < 0.6,
+                           output=rng.choice(["pandas", "numpy", "sparse"]), via="C", levels_via=how, levels=levels, ltype=ltype)
 
 
 def cases(rng, tier):
@@ -340,6 +778,26 @@ def cases(rng, tier):
     if tier != "search":
         # after the older streams, so that their cases are unchanged for a given seed
         yield from _formula_cases(rng, tier)
+    yield from _categorical_cases(rng, tier)
+    yield from _custom_cases(rng, tier)
+    yield from _custom_encode_cases(rng, tier)
+    yield from _apply_cases(rng, tier)
+    yield from _formula_ext_cases(rng, tier)
+    yield from _drop_cases(rng, tier)
+
+
+def _levels_of(c):
+    """the level list the factor is encoded with: the explicit list (argument / recorded state), else the declared
+    categories of a categorical column in their declared order, else the sorted distinct values"""
+    if c.get("levels") is not None:
+        return c["levels"]
+    if c.get("cat") is not None:
+        return c["cat"]
+    return _infer(c.get("data") or [])
+
+
+def _nlevels(c):
+    return len(_levels_of(c))
 
 
 def describe(c):
@@ -349,16 +807,24 @@ def describe(c):
         name += "(base)" if o.get("base") is not None else ""
     if name == "poly" and o.get("scores"):
         name += "(scores)"
-    n = len(c["levels"]) if c.get("levels") is not None else len(_infer(c["data"]))
-    bucket = "1" if n == 1 else "2" if n == 2 else "3-6" if n <= 6 else "7-12" if n <= 12 else "13+"
+    if name == "custom":
+        name += ":" + o["form"] + (":bare" if o.get("bare") else "") + (":names" if o.get("names") is not None else "")
+    if name == "cls":
+        name += ":" + o["name"]
+    n = _nlevels(c)
+    bucket = "0" if n == 0 else "1" if n == 1 else "2" if n == 2 else "3-6" if n <= 6 else "7-12" if n <= 12 else "13+"
     if c["op"] == "formula":
         name += ":parts=%d" % len(c["parts"]) + (":two-factors" if c.get("contrast2") else "")
-    return f"{c['op']}:{name}:n={bucket}" + (":malformed" if c.get("malformed") else "") + (":falsy-base" if c.get("falsy") else "")
+    if c["op"] == "apply":
+        name += ":" + c["dtype"] + ":output=" + ("inferred" if c["output"] is None else c["output"])
+    return (f"{c['op']}:{name}:n={bucket}" + (":malformed" if c.get("malformed") else "") + (":falsy-base" if c.get("falsy") else "")
+            + (":singular" if c.get("singular") else "")
+            + ((":categorical-dtype(" + c.get("catrel", "") + ")") if c.get("cat") is not None else (":object-twin" if c.get("catrel") else ""))
+            + (":" + c["via"] if c.get("via") in ("reuse",) else ""))
 
 
 def nontrivial(c):
-    n = len(c["levels"]) if c.get("levels") is not None else len(_infer(c["data"]))
-    return n >= 3
+    return _nlevels(c) >= 3
 
 
 # ----------------------------------------------------------------------------- implementation side
@@ -396,8 +862,34 @@ def _contrast(o):
         return contr.helmert(reverse=o["reverse"], scale=o["scale"])
     if k == "diff":
         return contr.diff(backward=o["backward"])
+    if k == "unset":
+        return None
+    if k == "cls":
+        import formulaic.transforms.contrasts as mod
+
+        return getattr(mod, o["name"])          # the class itself, not an instance
+    if k == "custom":
+        raw = _custom_raw(o)
+        if o.get("bare"):
+            return raw                            # handed to encode_contrasts / C() as it is
+        if o.get("names") is None:
+            return contr.custom(raw)
+        return contr.custom(raw, names=[_py(x) for x in o["names"]])
     sc = o.get("scores")
     return contr.poly() if sc is None else contr.poly(scores=[float(Fraction(s)) for s in sc])
+
+
+def _custom_raw(o):
+    """the Python object a custom coding is given as: dict {name: weights}, list of rows, 2-d ndarray, flat list"""
+    f = lambda v: float(Fraction(v))  # noqa: E731  (entries are small dyadic rationals: exact)
+    if o["form"] == "dict":
+        return {_py(k): [f(v) for v in vs] for k, vs in o["items"]}
+    if o["form"] == "flat":
+        return [f(v) for v in o["vals"]]
+    rows = [[f(v) for v in r] for r in o["rows"]]
+    if o["form"] == "ndarray":
+        return numpy.array(rows, dtype=float).reshape(len(rows), len(rows[0]) if rows else 0)
+    return rows
 
 
 def _arr(m):
@@ -422,30 +914,86 @@ def _try(f):
         return dict(error=type(e).__name__)
 
 
+def _frame(m):
+    """a dense matrix result: the array and, for a DataFrame, its row / column labels"""
+    a = _arr(m)
+    if isinstance(m, pandas.DataFrame):
+        a["index"] = [_lab(x) for x in m.index]
+        a["columns"] = [_lab(x) for x in m.columns]
+    return a
+
+
+def _labels_of(a):
+    if "error" in a:
+        return a
+    return dict(index=a.get("index"), columns=a.get("columns"))
+
+
+def _matrices_of(ct, levels, rr):
+    from formulaic.transforms.contrasts import ContrastsState
+
+    st = ContrastsState(ct, levels)
+    cd = _try(lambda: _frame(st.get_coding_matrix(reduced_rank=rr, sparse=False)))
+    kd = _try(lambda: _frame(st.get_coefficient_matrix(reduced_rank=rr, sparse=False)))
+    return dict(
+        coding_dense=cd,
+        coding_sparse=_try(lambda: _arr(st.get_coding_matrix(reduced_rank=rr, sparse=True))),
+        coef_dense=kd,
+        coef_sparse=_try(lambda: _arr(st.get_coefficient_matrix(reduced_rank=rr, sparse=True))),
+        coding_labels=_labels_of(cd),
+        coef_labels=_labels_of(kd),
+        names=_try(lambda: [_lab(x) for x in ct.get_coding_column_names(levels, reduced_rank=rr)]),
+        row_names=_try(lambda: [_lab(x) for x in ct.get_coefficient_row_names(levels, reduced_rank=rr)]),
+        drop_field=_try(lambda: dict(v=_lab(ct.get_drop_field(levels, reduced_rank=rr)))),
+        spans_intercept=_try(lambda: bool(ct.get_spans_intercept(levels, reduced_rank=rr))),
+        format=_try(lambda: ct.get_factor_format(levels, reduced_rank=rr)),
+    )
+
+
 def impl(c):
     warnings.simplefilter("ignore")
-    from formulaic.transforms.contrasts import ContrastsState
 
     if c["op"] == "matrices":
         levels = [_py(l) for l in c["levels"]]
-        out = {}
-        for key, rr in (("reduced", True), ("full", False)):
+        return {key: _matrices_of(_contrast(c["contrast"]), levels, rr) for key, rr in (("reduced", True), ("full", False))}
+    if c["op"] == "custom":
+        levels = [_py(l) for l in c["levels"]]
+        try:
             ct = _contrast(c["contrast"])
-            st = ContrastsState(ct, levels)
-            out[key] = dict(
-                coding_dense=_try(lambda: _arr(st.get_coding_matrix(reduced_rank=rr, sparse=False))),
-                coding_sparse=_try(lambda: _arr(st.get_coding_matrix(reduced_rank=rr, sparse=True))),
-                coef_dense=_try(lambda: _arr(st.get_coefficient_matrix(reduced_rank=rr, sparse=False))),
-                coef_sparse=_try(lambda: _arr(st.get_coefficient_matrix(reduced_rank=rr, sparse=True))),
-                names=_try(lambda: [_lab(x) for x in ct.get_coding_column_names(levels, reduced_rank=rr)]),
-                drop_field=_try(lambda: dict(v=_lab(ct.get_drop_field(levels, reduced_rank=rr)))),
-                spans_intercept=_try(lambda: bool(ct.get_spans_intercept(levels, reduced_rank=rr))),
-                format=_try(lambda: ct.get_factor_format(levels, reduced_rank=rr)),
-            )
+        except Exception as e:  # the constructor's exception class is the observable
+            return dict(init=dict(error=type(e).__name__))
+        out = dict(init=dict(shape=[int(x) for x in ct.contrasts.shape],
+                             names=None if ct.contrast_names is None else [_lab(x) for x in ct.contrast_names]))
+        for key, rr in (("reduced", True), ("full", False)):
+            out[key] = _matrices_of(ct, levels, rr)
         return out
+    if c["op"] == "apply":
+        return _impl_apply(c)
     if c["op"] == "formula":
         return _impl_formula(c)
     return _impl_encode(c)
+
+
+def _impl_apply(c):
+    import scipy.sparse as sp
+
+    levels = [_py(l) for l in c["levels"]]
+    try:
+        ct = _contrast(c["contrast"])
+    except Exception as e:
+        return dict(init=dict(error=type(e).__name__))
+    D = numpy.array([[float(Fraction(v)) for v in r] for r in c["dummies"]], dtype=float).reshape(len(c["dummies"]), len(levels))
+    dt = c["dtype"]
+    dm = (pandas.DataFrame(D, columns=pandas.Index(levels, dtype=object)) if dt == "frame" else D if dt == "ndarray"
+          else sp.csc_matrix(D) if dt == "spmatrix" else sp.csc_array(D) if dt == "sparray" else D.tolist())
+
+    def run():
+        fv = ct.apply(dm, levels, reduced_rank=c["reduced"], **({} if c["output"] is None else {"output": c["output"]}))
+        md = fv.__formulaic_metadata__
+        return dict(values=_arr(fv.__wrapped__), names=[_lab(x) for x in md.column_names], spans_intercept=bool(md.spans_intercept),
+                    drop_field=_lab(md.drop_field), format=md.format, format_reduced=md.format_reduced)
+
+    return _try(run)
 
 
 def _formula_exprs(c):
@@ -468,7 +1016,7 @@ def _impl_formula(c):
 
     def run():
         df = pandas.DataFrame({
-            "x": pandas.Series([_py(d) for d in c["data"]], dtype=object),
+            "x": _column(c),
             "z": [float(Fraction(v)) for v in c["z"]],
             "w": [float(Fraction(v)) for v in c["w"]],
             "g": list(c["g"]),
@@ -490,6 +1038,15 @@ def _impl_formula(c):
     return _try(run)
 
 
+def _width(opt, n, red):
+    """number of columns a contrast factor contributes: n-1 (reduced) / n (full) for the built-in codings; all k columns of
+    a custom coding whatever the rank (none for a single level in reduced rank: the empty short-circuit)"""
+    if opt["k"] == "custom":
+        v = _custom_valid(opt)
+        return 0 if (v is None or (n == 1 and red)) else v[2]
+    return n - 1 if red else n
+
+
 def _occurrences(c, o):
     """Every scoped term of the materialised formula that contains a contrast factor (A = `C(x, ct…)`, B = `C(x, ct2…)`),
     in materialization order. The columns of a scoped term are the row-wise products of its factors' columns, first factor
@@ -497,7 +1054,7 @@ def _occurrences(c, o):
     when reduced), so the block splits into groups (one per combination of partner columns), each group being the encoded
     contrast factor times the per-row partner product `s`. Width of the factor: n (full) or n-1 (reduced)."""
     exprA, exprB = _formula_exprs(c)
-    levels = c["levels"] if c.get("levels") is not None else _infer(c["data"])
+    levels = _levels_of(c)
     n = len(levels)
     glev = sorted(set(c["g"]))
     nums = {"z": [Fraction(v) for v in c["z"]], "w": [Fraction(v) for v in c["w"]]}
@@ -511,7 +1068,8 @@ def _occurrences(c, o):
                 fac = []  # (kind, names per column, per-row multipliers per column)
                 for expr, red in st:
                     if expr in (exprA, exprB):
-                        fac.append(("C", "A" if expr == exprA else "B", red, n - 1 if red else n))
+                        fac.append(("C", "A" if expr == exprA else "B", red,
+                                    _width(c["contrast"] if expr == exprA else c["contrast2"], n, red)))
                     elif expr in nums:
                         fac.append(("num", [expr], [nums[expr]], 1))
                     elif expr == "g":
@@ -553,13 +1111,25 @@ def _occurrences(c, o):
     return occ
 
 
+def _column(c):
+    """the data column: object dtype, or (case key `cat`) a pandas categorical whose dtype declares the categories `cat`
+    in that order (every non-null value of the case is one of them)"""
+    vals = [_py(d) for d in c["data"]]
+    if c.get("cat") is None:
+        return pandas.Series(vals, dtype=object)
+    return pandas.Series(pandas.Categorical(vals, categories=pandas.Index([_py(l) for l in c["cat"]], dtype=object)))
+
+
 def _impl_encode(c):
     from formulaic import model_matrix
     from formulaic.model_spec import ModelSpec
     from formulaic.transforms.contrasts import C, encode_contrasts
 
-    ct = _contrast(c["contrast"])
-    data = pandas.Series([_py(d) for d in c["data"]], dtype=object)
+    try:
+        ct = _contrast(c["contrast"])
+    except Exception as e:  # `contr.custom(...)` itself raised
+        return dict(error=type(e).__name__)
+    data = _column(c)
     levels = None if c.get("levels") is None else [_py(l) for l in c["levels"]]
     how, via = c["levels_via"], c["via"]
     state = {}
@@ -577,19 +1147,29 @@ def _impl_encode(c):
                     drop_field=_lab(md.drop_field), format=md.format, format_reduced=md.format_reduced,
                     categories=[_lab(x) for x in state.get("categories", [])])
 
+    if how == "fitted":
+        kw.pop("levels", None)   # the level list is what the fit recorded, not an argument
     if via == "encode":
         return _try(lambda: fv_out(encode_contrasts(data, ct, reduced_rank=c["reduced"], output=c["output"], _state=state, **kw)))
     if via == "C":
         def run():
             fv = C(data, ct, **kw)
             spec = ModelSpec(formula=[], output=c["output"])
-            return fv_out(fv.__formulaic_metadata__.encoder(data, c["reduced"], [], state, spec))
+            return fv_out(fv.__formulaic_metadata__.encoder(data, c["reduced"], list(c.get("drop") or []), state, spec))
         return _try(run)
 
     def run_mm():
         df = pandas.DataFrame({"x": data})
-        f = ("1 + " if c["reduced"] else "0 + ") + ("C(x, ct, levels=L)" if levels is not None else "C(x, ct)")
-        mm = model_matrix(f, df, na_action="ignore", output=c["output"], context={"ct": ct, "L": levels})
+        mkw = {"materializer": "narwhals"} if c.get("nw") else {}   # default: the pandas materializer
+        f = ("1 + " if c["reduced"] else "0 + ") + ("C(x, ct, levels=L)" if levels is not None and how != "fitted" else "C(x, ct)")
+        if via == "reuse":
+            # fit on object data (the spec records the categories: the explicit list, or the sorted values seen), then
+            # reuse the fitted spec on THIS column (possibly categorical with its own category order)
+            fit = pandas.DataFrame({"x": pandas.Series([_py(d) for d in c["fit"]], dtype=object)})
+            spec = model_matrix(f, fit, na_action="ignore", output=c["output"], context={"ct": ct, "L": levels}, **mkw).model_spec
+            mm = spec.get_model_matrix(df, context={"ct": ct, "L": levels})
+        else:
+            mm = model_matrix(f, df, na_action="ignore", output=c["output"], context={"ct": ct, "L": levels}, **mkw)
         cols = list(mm.model_spec.column_names)
         a = _arr(mm)
         if c["reduced"]:
@@ -607,13 +1187,21 @@ def _impl_encode(c):
 
 
 def request(c, o):
-    if c["op"] == "matrices":
-        return dict(op="matrices", contrast=c["contrast"], levels=c["levels"])
+    if c["op"] in ("matrices", "custom"):
+        return dict(op=c["op"], contrast=c["contrast"], levels=c["levels"])
+    if c["op"] == "apply":
+        return dict(op="apply", contrast=c["contrast"], levels=c["levels"], dummies=c["dummies"],
+                    dtype={"frame": "frame", "ndarray": "ndarray", "spmatrix": "spmatrix"}.get(c["dtype"], "other"),
+                    output=c["output"], reduced=c["reduced"])
     if c["op"] == "formula":
-        return dict(op="formula", contrast=c["contrast"], contrast2=c.get("contrast2"), levels=c.get("levels"),
+        return dict(op="formula", contrast=c["contrast"], contrast2=c.get("contrast2"),
+                    levels=c.get("levels") if c.get("cat") is None else _levels_of(c),
                     data=c["data"], output=c["output"], history=_history(c, o))
-    return dict(op="encode", contrast=c["contrast"], levels=c.get("levels"), data=c["data"], reduced=c["reduced"],
-                output=c["output"])
+    r = dict(op="encode", contrast=c["contrast"], levels=c.get("levels") if c.get("cat") is None else _levels_of(c),
+             data=c["data"], reduced=c["reduced"], output=c["output"])
+    if c.get("drop") is not None:
+        r["drop_rows"] = list(c["drop"])     # positions removed inside the model (Model.ContrastsExt.cEncoder)
+    return r
 
 
 def _history(c, o):
@@ -624,7 +1212,10 @@ def _history(c, o):
     except _Fail:
         occs = None
     if occs is None:
-        return [dict(which="A", reduced=False, newspec=True), dict(which="A", reduced=True, newspec=False)]
+        # the implementation raised (or its structure could not be read): the model is asked for one use of every factor in
+        # both ranks, which is enough to meet an error of the factor's own encoder / constructor
+        return [dict(which="A", reduced=False, newspec=True), dict(which="A", reduced=True, newspec=False)] + (
+            [dict(which="B", reduced=False, newspec=True), dict(which="B", reduced=True, newspec=False)] if c.get("contrast2") else [])
     hist, last = [], {}
     for oc in occs:
         hist.append(dict(which=oc["which"], reduced=oc["reduced"], newspec=last.get(oc["which"]) != oc["part"]))
@@ -633,15 +1224,50 @@ def _history(c, o):
 
 
 def _n_of(c):
-    return len(c["levels"]) if c.get("levels") is not None else len(_infer(c["data"]))
+    return len(_levels_of(c))
+
+
+EPS = 2.0 ** -52
+_TOLS = {}
+
+
+def poly_tols(n, scores=None):
+    """Absolute tolerance for each (unit-norm) column 1..n-1 of the polynomial coding, implementation float against the
+    model's exact value `sign(P)·sqrt(P²/norms2)`.
+
+    Constructing orthogonal polynomials on given nodes is ill-conditioned in the degree and in the spread of the nodes; the
+    float three-term recurrence of poly.py (like R's QR construction) loses digits accordingly. Column j (degree j) is
+    compared with  tol_j = 16·eps·κ_j + 1e-13,  κ_j = cond₂ of the n x (j+1) Vandermonde matrix of the scores mapped
+    affinely onto [-1, 1]  (eps = 2^-52). Measured error / (eps·κ_j) stays below 2.1 over 3000 random score vectors
+    (n <= 12), 0.8 once κ_j > 100; e.g. n = 12 with scores [-8,3,5,6,7,9,10,11,12,13,14,17]: κ_11 ≈ 1e8, error 3e-9.
+    For equally spaced scores (the default `arange(n)` and its affine images, the only scores generated beyond 12
+    levels) the monomial Vandermonde over-estimates the conditioning of the recurrence by orders of magnitude, so the
+    measured envelope 1e-11·2^(max(0, n-8)/1.5) caps the tolerance there (measured error 10-60x below it up to n = 40)."""
+    key = (n, tuple(scores) if scores else None)
+    if key in _TOLS:
+        return _TOLS[key]
+    if n <= 1:
+        return _TOLS.setdefault(key, [])
+    x = numpy.array([float(Fraction(v)) for v in scores], dtype=float) if scores else numpy.arange(n, dtype=float)
+    if len(x) != n:   # wrong number of scores: the call raises, nothing is compared
+        return _TOLS.setdefault(key, [1e-11] * (n - 1))
+    half = (x.max() - x.min()) / 2 or 1.0
+    t = (x - (x.max() + x.min()) / 2) / half
+    V = numpy.vander(t, n, increasing=True)
+    steps = numpy.diff(x)
+    equi = bool(len(steps) == 0 or numpy.all(steps == steps[0]))
+    cap = 1e-11 * 2.0 ** (max(0, n - 8) / 1.5)
+    out = []
+    for j in range(1, n):
+        kap = float(numpy.linalg.cond(V[:, : j + 1]))
+        tol = 16 * EPS * kap + 1e-13 if math.isfinite(kap) else 1.0
+        out.append(min(tol, cap) if equi else tol)
+    return _TOLS.setdefault(key, out)
 
 
 def polytol(n, scores=None):
-    """absolute tolerance for the (irrational, float-recurrence) polynomial entries; measured float error of the
-    implementation against exact arithmetic is 10-60x below this envelope"""
-    if scores and n <= 12:
-        return 1e-11 * 2.0 ** max(0, n - 6)
-    return 1e-11 * 2.0 ** (max(0, n - 8) / 1.5)
+    """the largest per-column tolerance (used where all columns mix: the inverse, orthonormality, column sums)"""
+    return max(poly_tols(n, scores), default=1e-11)
 
 
 def _cmp_exact(x, f, tol):
@@ -651,7 +1277,7 @@ def _cmp_exact(x, f, tol):
         return f"non-finite {x}"
     if abs(x - float(f)) > tol:
         return f"{x} vs {f}"
-    if f.denominator <= 10**5 and Fraction(x).limit_denominator(10**6) != f:
+    if tol <= 1e-9 and f.denominator <= 10**5 and Fraction(x).limit_denominator(10**6) != f:
         return f"{x} rounds to {Fraction(x).limit_denominator(10**6)} not {f}"
     return None
 
@@ -682,7 +1308,8 @@ def _cmp_matrix(a, rows, tol, poly=None, polyrows=False, what=""):
     for i, (ra, rm) in enumerate(zip(a["rows"], rows)):
         for j, (x, f) in enumerate(zip(ra, rm)):
             if poly is not None and (not polyrows or i >= 1):
-                w = _cmp_poly(x, f, 1 / Fraction(poly[i - 1]) if polyrows else poly[j], tol)
+                w = _cmp_poly(x, f, 1 / Fraction(poly[i - 1]) if polyrows else poly[j],
+                              tol[j] if isinstance(tol, list) else tol)
             elif poly is not None:
                 # intercept row of the inverse of a polynomial coding: rational, but computed through the float columns
                 w = None if abs(x - float(Fraction(f))) <= tol else f"{x} vs {f}"
@@ -706,7 +1333,8 @@ def agree(c, o, m):
             norms = mo.get("norms2") if (is_poly and key == "reduced" and isinstance(mo.get("norms2"), list)) else None
             ptol = polytol(n, c["contrast"].get("scores"))
             for which in ("coding_dense", "coding_sparse"):
-                w = _cmp_matrix(io[which], mo[which], ptol if norms is not None else 1e-12, poly=norms, what=f"{key}.{which}")
+                w = _cmp_matrix(io[which], mo[which], poly_tols(n, c["contrast"].get("scores")) if norms is not None else 1e-12,
+                                poly=norms, what=f"{key}.{which}")
                 if w:
                     return w
             for which in ("coef_dense", "coef_sparse"):
@@ -715,11 +1343,11 @@ def agree(c, o, m):
                 if which == "coef_sparse" and isinstance(mo["coding_sparse"], list) and isinstance(mrows, dict):
                     # sparse path skips the column-name evaluation: the inverse of the identity is the identity
                     mrows = mo["coding_sparse"]
-                w = _cmp_matrix(io[which], mrows, 1e3 * ptol if norms is not None else 1e-9, poly=norms, polyrows=True,
+                w = _cmp_matrix(io[which], mrows, 16 * ptol if norms is not None else 1e-9, poly=norms, polyrows=True,
                                 what=f"{key}.{which}")
                 if w:
                     return w
-            for fld in ("names",):
+            for fld in ("names", "row_names", "coding_labels", "coef_labels"):
                 a, b = io[fld], mo[fld]
                 if a != b:
                     return f"{key}.{fld}: impl {a} vs model {b}"
@@ -733,21 +1361,76 @@ def agree(c, o, m):
         return None
     if c["op"] == "formula":
         return _agree_formula(c, o, m)
-    # encode
+    if c["op"] == "custom":
+        return _agree_custom(c, o, m)
+    if c["op"] == "apply" and ("init" in o or "init" in m):
+        a, b = o.get("init", {}).get("error"), m.get("init", {}).get("error")
+        return None if a == b and a is not None else f"constructor: impl {a or 'ok'} vs model {b or 'ok'}"
+    # encode / apply
     me = m["enc"]
     if "error" in o or "error" in me:
         return None if o.get("error") == me.get("error") else f"impl {o.get('error', 'ok')} vs model {me.get('error', 'ok')}"
     n = len(me["categories"])
-    norms = m.get("norms2") if (c["contrast"]["k"] == "poly" and c["reduced"] and n > 1 and isinstance(m.get("norms2"), list)) else None
-    w = _cmp_matrix(o["values"], me["values"], polytol(n, c["contrast"].get("scores")) if norms is not None else 1e-12, poly=norms, what="values")
+    norms = m.get("norms2") if (_is_poly(c["contrast"]) and c["reduced"] and n > 1 and isinstance(m.get("norms2"), list)) else None
+    w = _cmp_matrix(o["values"], me["values"], poly_tols(n, c["contrast"].get("scores")) if norms is not None else 1e-12, poly=norms, what="values")
     if w:
         return w
     if o.get("mm"):
         want = _mm_names(c, me["names"], me["format"])
         return None if o["mm_names"] == want else f"model_matrix column names {o['mm_names']} vs {want}"
-    for fld in ("names", "spans_intercept", "drop_field", "format", "format_reduced", "categories"):
+    flds = ["names", "spans_intercept", "drop_field", "format", "format_reduced"] + ([] if c["op"] == "apply" else ["categories"])
+    for fld in flds:
         if o[fld] != me[fld]:
             return f"{fld}: impl {o[fld]} vs model {me[fld]}"
+    if c["op"] == "apply":
+        want = CONTAINER.get(me["output"])   # 'narwhals': whatever _apply returned, not wrapped
+        if want is not None and o["values"]["type"] != want:
+            return f"output {me['output']!r} (inferred from the dummies or given): container {o['values']['type']} vs {want}"
+    return None
+
+
+CONTAINER = {"pandas": "DataFrame", "numpy": "ndarray", "sparse": "csc_matrix"}
+
+
+def _is_poly(o):
+    return o["k"] == "poly" or (o["k"] == "cls" and o.get("name") == "PolyContrasts")
+
+
+def _maxabs(rows):
+    return max([abs(Fraction(v)) for r in rows for v in r], default=Fraction(0)) if isinstance(rows, list) else Fraction(0)
+
+
+def _agree_custom(c, o, m):
+    a, b = o["init"], m["init"]
+    if "error" in a or "error" in b:
+        return None if a.get("error") == b.get("error") else f"constructor: impl {a.get('error', 'ok')} vs model {b.get('error', 'ok')}"
+    if a != b:
+        return f"constructed contrasts: impl {a} vs model {b}"
+    for key in ("reduced", "full"):
+        io, mo = o[key], m[key]
+        for which in ("coding_dense", "coding_sparse"):
+            w = _cmp_matrix(io[which], mo[which], 1e-12, what=f"{key}.{which}")
+            if w:
+                return w
+        for which in ("coef_dense", "coef_sparse"):
+            # exact rational inverse (certified in the model) against numpy / scipy: relative to the size of the inverse
+            if isinstance(mo[which], dict) and mo[which].get("error") == "nan-result":
+                # scipy: a singular 1 x 1 sparse system is solved as a vector problem: MatrixRankWarning and NaN, no exception
+                a = io[which]
+                if "error" in a or not all(math.isnan(v) for r in (a["rows"] or [[0.0]]) for v in r):
+                    return f"{key}.{which}: model expects scipy's NaN answer for a singular 1 x 1 matrix, impl gave {a}"
+                continue
+            big = float(_maxabs(mo[which]))
+            w = _cmp_matrix(io[which], mo[which], 1e-10 * max(1.0, big) ** 2, what=f"{key}.{which}")
+            if w:
+                return w
+        for fld in ("names", "row_names", "coding_labels", "coef_labels", "spans_intercept", "format"):
+            if io[fld] != mo[fld]:
+                return f"{key}.{fld}: impl {io[fld]} vs model {mo[fld]}"
+        d = io["drop_field"]
+        d = d if "error" in d else d["v"]
+        if d != mo["drop_field"]:
+            return f"{key}.drop_field: impl {d} vs model {mo['drop_field']}"
     return None
 
 
@@ -765,8 +1448,8 @@ def _agree_formula(c, o, m):
         opt = c["contrast"] if oc["which"] == "A" else c["contrast2"]
         where = f"part {oc['part']} term {oc['term']} ({'reduced' if oc['reduced'] else 'full'} {opt['k']})"
         n = len(enc["categories"])
-        norms = me.get("norms2") if (opt["k"] == "poly" and oc["reduced"] and n > 1 and isinstance(me.get("norms2"), list)) else None
-        tol = polytol(n, opt.get("scores")) if norms is not None else 1e-12
+        norms = me.get("norms2") if (_is_poly(opt) and oc["reduced"] and n > 1 and isinstance(me.get("norms2"), list)) else None
+        tol = poly_tols(n, opt.get("scores")) if norms is not None else 1e-12
         part = o["parts"][oc["part"]]
         V = part["values"]["rows"]
         fmt = enc["format"]
@@ -785,14 +1468,14 @@ def _agree_formula(c, o, m):
                         continue
                     x = v / float(sv)  # exact: the partners are +-2^k
                     f = enc["values"][r][i]
-                    w = _cmp_poly(x, f, norms[i], tol) if norms is not None else _cmp_exact(x, f, tol)
+                    w = _cmp_poly(x, f, norms[i], tol[i]) if norms is not None else _cmp_exact(x, f, tol)
                     if w:
                         return f"{where}: column {part['names'][col]!r} row {r}: {w}"
     return None
 
 
 def _mm_names(c, names, fmt):
-    base = "C(x, ct, levels=L)" if c.get("levels") is not None else "C(x, ct)"
+    base = "C(x, ct, levels=L)" if c.get("levels") is not None and c.get("levels_via") != "fitted" else "C(x, ct)"
     return [fmt.replace("{name}", base).replace("{field}", str(_py(x))) for x in names]
 
 
@@ -835,6 +1518,28 @@ def _ref_coding(o, n, base_idx):
     return None
 
 
+def _ref_row_names(o, levels):
+    """what each row of the reduced coefficient matrix estimates, written independently of the implementation:
+    treatment: the reference level, then `level-reference`; sum: the grand mean, then `level - avg` for all but the
+    last level; Helmert: `level - rolling_avg` for the levels that are compared with the running mean (2nd..last for the
+    reversed / R variant, 1st..last-but-one forward); difference: `later - earlier` (backward) / `earlier - later`;
+    polynomial: `.L .Q .C ^4 ...`"""
+    st = lambda l: str(_py(l))  # noqa: E731
+    k, n = o["k"], len(levels)
+    if k in ("treatment", "SAS"):
+        b = levels[_base_idx(o, levels)]
+        return [b] + [dict(s=f"{st(l)}-{st(b)}") for l in levels if l != b]
+    if k == "sum":
+        return [dict(s="avg")] + [dict(s=f"{st(l)} - avg") for l in levels[: n - 1]]
+    if k == "helmert":
+        sel = levels[1:] if o["reverse"] else levels[: n - 1]
+        return [dict(s="avg")] + [dict(s=f"{st(l)} - rolling_avg") for l in sel]
+    if k == "diff":
+        pairs = [(levels[i + 1], levels[i]) for i in range(n - 1)] if o["backward"] else [(levels[i], levels[i + 1]) for i in range(n - 1)]
+        return [dict(s="avg")] + [dict(s=f"{st(a)} - {st(b)}") for a, b in pairs]
+    return [dict(s="avg")] + [dict(s={1: ".L", 2: ".Q", 3: ".C"}.get(d, f"^{d}")) for d in range(1, n)]
+
+
 def _ref_poly(scores, n):
     """contr.poly: QR of the centred Vandermonde matrix, columns scaled to unit length, leading coefficient positive"""
     x = numpy.array(scores, dtype=float)
@@ -847,7 +1552,7 @@ def _ref_poly(scores, n):
 
 def _valid(c):
     """options for which the property speaks: distinct levels, base among them, right number of distinct scores"""
-    levels = c["levels"] if c.get("levels") is not None else _infer(c["data"])
+    levels = _levels_of(c)
     if c.get("output", "pandas") not in ("pandas", "numpy", "sparse"):
         return None
     if len(levels) == 0 or len({canon_label(l) for l in levels}) != len(levels):
@@ -856,6 +1561,12 @@ def _valid(c):
     if o.get("base") is not None and o["base"] not in levels:
         return None
     for o in [o] + ([c["contrast2"]] if c.get("contrast2") else []):
+        if o["k"] == "custom":
+            v = _custom_valid(o)
+            if v is None or len(v[0]) != len(levels):
+                return None
+        if o["k"] == "cls" and o["name"] == "CustomContrasts":
+            return None
         if o.get("base") is not None and o["base"] not in levels:
             return None
         if o["k"] == "poly" and o.get("scores"):
@@ -869,6 +1580,10 @@ def canon_label(l):
 
 
 def _base_idx(o, levels):
+    if o["k"] == "unset" or (o["k"] == "cls" and o["name"] == "TreatmentContrasts"):
+        return 0            # contrasts=None / the class itself: treatment coding, first level is the reference
+    if o["k"] == "cls" and o["name"] == "SASContrasts":
+        return len(levels) - 1
     if o["k"] not in ("treatment", "SAS"):
         return None
     if o.get("base") is not None:
@@ -891,13 +1606,71 @@ class _Fail(Exception):
     pass
 
 
+def _kept(c):
+    """the rows that are encoded: all of them, minus the positions the materializer asked the C() encoder to drop"""
+    drop = set(c.get("drop") or [])
+    return [d for i, d in enumerate(c["data"]) if i not in drop]
+
+
+def _custom_valid(o):
+    """(M, names) for a well-formed 2-d custom coding: M its rows as Fractions (r x k), names the given / dict names
+    (None: the code numbers the columns 1..k); None when the description is not a 2-d array with aligned names"""
+    if o["form"] == "dict":
+        cols = [vs for _, vs in o["items"]]
+        if not cols or len({len(v) for v in cols}) != 1:
+            return None
+        M = [[Fraction(cols[j][i]) for j in range(len(cols))] for i in range(len(cols[0]))]
+        k = len(cols)
+        names = o["names"] if o.get("names") is not None else [key for key, _ in o["items"]]
+    elif o["form"] in ("rows", "ndarray"):
+        rows = o["rows"]
+        if not rows or len({len(r) for r in rows}) != 1:
+            return None
+        M = [[Fraction(v) for v in r] for r in rows]
+        k = len(rows[0])
+        names = o.get("names")
+    else:
+        return None
+    if names is not None and len(names) != k:
+        return None
+    return M, (names if names else None), k
+
+
+def _instance(o):
+    """an instance of the coding `o` describes (a class is instantiated with its defaults, nothing = treatment)"""
+    from formulaic.transforms.contrasts import Contrasts, TreatmentContrasts
+
+    ct = _contrast(o)
+    if ct is None:
+        return TreatmentContrasts()
+    if isinstance(ct, type):
+        return ct()
+    if not isinstance(ct, Contrasts):
+        from formulaic.transforms.contrasts import CustomContrasts
+
+        return CustomContrasts(ct)
+    return ct
+
+
 def oracle(c, o):
     if "harness_exception" in o:
         return "harness could not run the implementation: " + o["harness_exception"]
-    levels = _valid(c)
-    if levels is None:
-        return None
     try:
+        if c["op"] == "custom":
+            return _oracle_custom(c, o)
+        if c["op"] == "apply":
+            return _oracle_apply(c, o)
+        if c["op"] == "encode" and c.get("via") == "encode" and c["output"] not in ("narwhals", "pandas", "numpy", "sparse"):
+            if o.get("error") != "ValueError":
+                return f"encode_contrasts(..., output={c['output']!r}): {o.get('error', 'no error')}, expected ValueError (unknown output type)"
+            return None
+        if c["op"] == "encode" and c["contrast"]["k"] == "custom":
+            return _oracle_encode_custom(c, o)
+        if c["contrast"]["k"] == "cls" and c["contrast"]["name"] == "CustomContrasts":
+            return None  # `CustomContrasts()` cannot be built without a matrix: nothing to encode
+        levels = _valid(c)
+        if levels is None:
+            return None
         if c["op"] == "formula":
             return _oracle_formula(c, o, levels)
         return _oracle_matrices(c, o, levels) if c["op"] == "matrices" else _oracle_encode(c, o, levels)
@@ -905,12 +1678,146 @@ def oracle(c, o):
         return str(e)
 
 
+def _distinct_levels(c):
+    levels = _levels_of(c)
+    if len(levels) == 0 or len({canon_label(l) for l in levels}) != len(levels):
+        return None
+    return levels
+
+
+def _misaligned(o):
+    """a 2-d custom coding whose `names=` are not as many as its columns (documented: ValueError at construction)"""
+    if o.get("names") is None:
+        return False
+    v = _custom_valid(dict(o, names=None))
+    return v is not None and len(o["names"]) != v[2]
+
+
+def _oracle_custom(c, o):
+    """a custom coding that fits the levels: the coding matrix is the given matrix (dense = sparse), its columns carry the
+    given names (dict keys, `names=`) or 1..k; when [1 | coding] is square and exactly non-singular the reported
+    coefficient matrix is its inverse; names that are not aligned with the columns are rejected at construction"""
+    if _misaligned(c["contrast"]):
+        if o["init"].get("error") != "ValueError":
+            return (f"CustomContrasts(..., names=<{len(c['contrast']['names'])} names>) for a matrix with another number of "
+                    f"columns: {o['init'].get('error', 'no error')}, expected ValueError (names must be aligned with the columns)")
+        return None
+    levels = _distinct_levels(c)
+    v = _custom_valid(c["contrast"])
+    if levels is None or v is None or len(v[0]) != len(levels):
+        return None
+    M, names, k = v
+    n = len(levels)
+    if "error" in o["init"]:
+        return f"CustomContrasts(...) raised {o['init']['error']} for a {n} x {k} matrix with aligned names"
+    want = numpy.array([[float(x) for x in r] for r in M], dtype=float).reshape(n, k)
+    wnames = names if names is not None else [dict(i=j + 1) for j in range(k)]
+    for key in ("reduced", "full"):
+        io = o[key]
+        for which in ("coding_dense", "coding_sparse"):
+            C = _mat(io[which], f"{key} {which}")
+            if C.shape != want.shape or not numpy.array_equal(C, want):
+                return f"{key} {which} is not the matrix that was given"
+        if io["names"] != wnames:
+            return f"{key} column names {io['names']}, expected {wnames}"
+        if io["coding_labels"] != dict(index=levels, columns=wnames):
+            return f"{key} coding matrix is labelled {io['coding_labels']}, expected index = levels, columns = {wnames}"
+        if io["spans_intercept"] is not False or io["drop_field"] != dict(v=None):
+            return f"a custom coding must not claim to span the intercept / name a drop field ({key}: {io['spans_intercept']}, {io['drop_field']})"
+    if k == n - 1:
+        aug = [[Fraction(1)] + r for r in M]
+        if _fdet(aug) != 0:
+            A = numpy.array([[float(x) for x in r] for r in aug], dtype=float).reshape(n, n)
+            K = _mat(o["reduced"]["coef_dense"], "coefficient matrix")
+            tol = 1e-9 * max(1.0, float(numpy.abs(K).max(initial=0))) ** 2
+            if K.shape != (n, n) or not numpy.allclose(K @ A, numpy.eye(n), atol=tol):
+                return "reported coefficient matrix of the custom coding is not the inverse of [1 | coding]"
+            S = _mat(o["reduced"]["coef_sparse"], "sparse coefficient matrix")
+            if S.shape != K.shape or not numpy.allclose(S, K, atol=tol):
+                return "dense and sparse coefficient matrices of the custom coding differ"
+            if o["reduced"]["coef_labels"].get("columns") != levels:
+                return "coefficient matrix columns are not the levels"
+    return None
+
+
+def _oracle_encode_custom(c, o):
+    levels = _distinct_levels(c)
+    v = _custom_valid(c["contrast"])
+    if levels is None or v is None or len(v[0]) != len(levels) or c["output"] not in ("pandas", "numpy", "sparse"):
+        return None
+    M, names, k = v
+    n = len(levels)
+    if n == 1 and c["reduced"]:
+        return None  # Contrasts.apply short-circuits one level in reduced rank to zero columns, custom coding or not
+    if "error" in o:
+        return f"encoding with a {n} x {k} custom coding raised {o['error']}"
+    V = _mat(o["values"], "encoded values")
+    data = _kept(c)
+    ind = numpy.array([[1.0 if d == l else 0.0 for l in levels] for d in data]).reshape(len(data), n)
+    want = ind @ numpy.array([[float(x) for x in r] for r in M], dtype=float).reshape(n, k)
+    if V.shape != want.shape or not numpy.array_equal(V, want):
+        return "encoding differs from indicator matrix times the given custom coding"
+    if not o.get("mm"):
+        wnames = names if names is not None else [dict(i=j + 1) for j in range(k)]
+        if o["names"] != wnames:
+            return f"custom coding column names {o['names']}, expected {wnames}"
+        if o["categories"] != levels:
+            return f"level list not honoured: categories {o['categories']} vs {levels}"
+        if o["spans_intercept"] is not False or o["drop_field"] is not None:
+            return f"a custom coding must not claim to span the intercept / name a drop field ({o['spans_intercept']}, {o['drop_field']})"
+    return None
+
+
+def _oracle_apply(c, o):
+    """Contrasts.apply(dummies, levels, …) for dummies of a declared type (DataFrame / ndarray / sparse matrix) with the
+    output inferred or spelled out consistently: the result is dummies @ coding in the container that goes with the
+    output type, columns named by get_coding_column_names"""
+    levels = _distinct_levels(c)
+    if c["output"] is not None and c["output"] not in ("narwhals", "pandas", "numpy", "sparse") and "init" not in o:
+        if o.get("error") != "ValueError":
+            return f"apply(..., output={c['output']!r}): {o.get('error', 'no error')}, expected ValueError (unknown output type)"
+        return None
+    if levels is None or c["dtype"] not in DTYPES or c["output"] not in (None, OUT_OF[c["dtype"]]):
+        return None
+    opt = c["contrast"]
+    n = len(levels)
+    if opt["k"] == "custom":
+        v = _custom_valid(opt)
+        if v is None or len(v[0]) != n or (n == 1 and c["reduced"]):
+            return None
+    else:
+        if opt.get("base") is not None and opt["base"] not in levels:
+            return None
+        if opt["k"] == "poly" and opt.get("scores") and (len(opt["scores"]) != n or len(set(opt["scores"])) != n):
+            return None
+    if "init" in o:
+        return f"constructor raised {o['init'].get('error')}"
+    if "error" in o:
+        return (f"{opt['k']} contrasts .apply({c['dtype']} dummies of shape ({len(c['dummies'])}, {n}), levels, "
+                f"reduced_rank={c['reduced']}, output={c['output']!r}) raised {o['error']}")
+    from formulaic.transforms.contrasts import ContrastsState
+
+    warnings.simplefilter("ignore")
+    st = ContrastsState(_instance(opt), [_py(l) for l in levels])
+    Cm = numpy.asarray(st.get_coding_matrix(reduced_rank=c["reduced"]).values, dtype=float)
+    Cm = Cm.reshape(n, Cm.shape[1] if Cm.ndim == 2 else 0)
+    D = numpy.array([[float(Fraction(x)) for x in r] for r in c["dummies"]], dtype=float).reshape(len(c["dummies"]), n)
+    want = D @ Cm
+    V = _mat(o["values"], "result of apply")
+    tol = 1e-12 * max(1.0, float(numpy.abs(D).max(initial=0)) * n)
+    if V.shape != want.shape or not numpy.allclose(V, want, atol=tol):
+        return f"apply on {c['dtype']} dummies differs from dummies @ coding matrix (shape {V.shape} vs {want.shape})"
+    if o["values"]["type"] != CONTAINER[OUT_OF[c["dtype"]]]:
+        return f"apply on {c['dtype']} dummies returned a {o['values']['type']}, expected {CONTAINER[OUT_OF[c['dtype']]]}"
+    return None
+
+
 def _oracle_matrices(c, o, levels):
     n = len(levels)
     opt = c["contrast"]
     k = opt["k"]
     is_poly = k == "poly"
-    tol = 1e3 * polytol(n, opt.get("scores")) if is_poly else 1e-9
+    tol = max(1e-9, 64 * polytol(n, opt.get("scores"))) if is_poly else 1e-9   # all columns mix in these checks
     red, full = o["reduced"], o["full"]
     C = _mat(red["coding_dense"], "reduced coding matrix")
     if C.shape != (n, n - 1):
@@ -940,7 +1847,7 @@ def _oracle_matrices(c, o, levels):
         if n <= 10:
             scores = [float(Fraction(s)) for s in opt["scores"]] if opt.get("scores") else list(range(n))
             R = _ref_poly(scores, n)
-            if not numpy.allclose(C, R, atol=1e-7):
+            if not numpy.allclose(C, R, atol=max(1e-7, tol)):   # the QR reference loses digits with the same conditioning
                 return "polynomial coding differs from the QR construction of contr.poly"
         if n > 1 and not numpy.allclose(C.T @ C, numpy.eye(n - 1), atol=tol):
             return "polynomial columns are not orthonormal"
@@ -948,6 +1855,14 @@ def _oracle_matrices(c, o, levels):
         R = _ref_coding(opt, n, _base_idx(opt, levels))
         if not numpy.allclose(C, R, atol=1e-12):
             return f"{k} coding differs from the textbook/R matrix: {C.tolist()} vs {R.tolist()}"
+    # coefficient row names: the interpretation of each row of the coefficient matrix
+    want_rows = _ref_row_names(opt, levels)
+    if red["row_names"] != want_rows:
+        return f"coefficient row names {red['row_names']}, expected {want_rows}"
+    if red["coef_labels"] != dict(index=want_rows, columns=levels):
+        return f"coefficient matrix is labelled {red['coef_labels']}, expected rows {want_rows}, columns = levels"
+    if full["row_names"] != levels or full["coef_labels"] != dict(index=levels, columns=levels):
+        return "full-rank coefficient matrix is not labelled by the levels"
     # names honour the reference level
     names = red["names"]
     if isinstance(names, dict):
@@ -968,11 +1883,11 @@ def _oracle_encode(c, o, levels):
     n = len(levels)
     opt = c["contrast"]
     V = _mat(o["values"], "encoded values")
-    data = c["data"]
+    data = _kept(c)
     ind = numpy.array([[1.0 if d == l else 0.0 for l in levels] for d in data]).reshape(len(data), n)
     # the coding matrix the implementation itself reports for these levels
     warnings.simplefilter("ignore")
-    st = ContrastsState(_contrast(opt), [_py(l) for l in levels])
+    st = ContrastsState(_instance(opt), [_py(l) for l in levels])
     Cm = numpy.asarray(st.get_coding_matrix(reduced_rank=c["reduced"]).values, dtype=float).reshape(n, n - 1 if c["reduced"] else n)
     want = ind @ Cm
     if V.shape != want.shape:
@@ -1009,9 +1924,11 @@ def _oracle_formula(c, o, levels):
         key = (oc["which"], oc["reduced"])
         if key not in coding:
             # the coding matrix the implementation itself reports for these levels (checked against the textbook by op "matrices")
-            st = ContrastsState(_contrast(opt), [_py(l) for l in levels])
+            st = ContrastsState(_instance(opt), [_py(l) for l in levels])
             coding[key] = numpy.asarray(st.get_coding_matrix(reduced_rank=oc["reduced"]).values, dtype=float).reshape(
-                n, n - 1 if oc["reduced"] else n)
+                n, _width(opt, n, False) if opt["k"] == "custom" else (n - 1 if oc["reduced"] else n))
+            if opt["k"] == "custom" and n == 1 and oc["reduced"]:
+                coding[key] = coding[key][:, :0]   # a single level in reduced rank: no columns
         enc = ind @ coding[key]
         for g in oc["groups"]:
             sv = numpy.array([float(x) for x in g["s"]])
@@ -1032,14 +1949,23 @@ LEVEL_TEXT = (
     "Proof: Lean theorems (Props/C11.lean) show for EVERY level count n and every option that the model's coding matrix "
     "(written from the code's index arithmetic) equals the textbook/R matrix, is n x (n-1), that the closed-form coefficient "
     "matrix is a two-sided inverse of [1 | coding] (hence the determinant is a unit), that sum/Helmert/difference/polynomial "
-    "columns sum to zero, that polynomial columns are mutually orthogonal, that the full coding is the identity, and that "
-    "encoding equals indicator x coding including the treatment fast path, and that the materializer's encoded-factor cache and "
-    "per-part encoder state are transparent: for every history of full/reduced uses of the factor inside one materialization each "
-    "use gets exactly the stand-alone encoding (cache_transparent, materialized_is_product). The model is tied to the real code by a differential "
-    "correspondence on every run (all option combinations, n = 1..12 / 1..40, str/int/mixed labels, nulls, absent levels; formulas that use one factor several times)."
+    "columns sum to zero, that polynomial columns are mutually orthogonal and — over the reals, with the sqrt normalisation the code "
+    "applies — orthonormal with explicit inverse [1/n; Q^T], that the full coding is the identity, that "
+    "encoding equals indicator x coding including the treatment fast path, row by row (each encoded row IS the coding row of its "
+    "level; nulls / outside values give zero rows; the reference level of a treatment coding gives the zero row), that coding column names / "
+    "coefficient row names / DataFrame labels align with the matrices and the drop field is a column, that every form of the contrasts= "
+    "argument (instance, class with the live dataclass defaults, None) is the same encoder, that Contrasts.apply with an inferred output is the "
+    "call with that output and is dummies x coding for any rectangular dummies, that a custom coding encodes to indicator x the GIVEN matrix "
+    "with names as given or 1..k and that its reported coefficient matrix (the model's exact inverse, certified) is the two-sided inverse / "
+    "that a reported singularity excludes an inverse, and that the materializer's encoded-factor cache and "
+    "per-part encoder state are transparent for every argument form: for every history of full/reduced uses of the factor inside one materialization each "
+    "use gets exactly the stand-alone encoding (cache_transparent, materialized_is_product, materialized_custom_is_product). The model is tied to the real code by a differential "
+    "correspondence on every run (all option combinations, n = 1..12 / 1..40, str/int/mixed labels, nulls, absent levels, categorical columns with "
+    "another declared order, custom codings, direct apply, formulas that use one factor several times); every line of transforms/contrasts.py is executed by the stream."
 )
 LEVEL_NOTE = (
     "Trusted: Lean kernel + propext/Classical.choice/Quot.sound; the hand model of contrasts.py / poly.py validated by "
-    "correspondence; numpy/scipy inverses compared with the proved closed form (1e-9); pandas categorical encoding modelled; "
-    "float rounding and sqrt in the polynomial coding not modelled (tolerance stated in the evidence)."
+    "correspondence; numpy/scipy inverses compared with the proved closed form (1e-9) or with the model's certified exact inverse (custom codings); "
+    "pandas categorical encoding and numpy/pandas shape rules modelled as observed; "
+    "float rounding of the polynomial recurrence not modelled (tolerance stated in the evidence); finite tables of the code regenerated from the live package (Gen/ContrastsTable.lean)."
 )
